@@ -81,8 +81,7 @@ static void table_grow(void)
     size_t i;
     if (nt == NULL)
     {
-        fprintf(stderr, "ledger: out of memory\n");
-        abort();
+        harness_die("ledger: out of memory");
     }
     for (i = 0; i < cap; i++)
     {
